@@ -13,7 +13,7 @@ use std::fmt::Write as _;
 use syn::*;
 
 #[derive(Clone, Debug, PartialEq)]
-enum Ty { U8, U32, U64, I32, I64, Bool, W(usize), RMode, Class, F64U, F32U, DecDigits, N, Ord, OptOrd, Hasher, Arr(Box<Ty>, usize), Generic(String), Tuple(Vec<Ty>), Func(Vec<Ty>, Box<Ty>), Opt128, Unit, Unknown }
+enum Ty { U8, U32, U64, I32, I64, Bool, W(usize), RMode, Class, F64U, F32U, DecDigits, N, Ord, OptOrd, Hasher, Arr(Box<Ty>, usize), Generic(String), Tuple(Vec<Ty>), Func(Vec<Ty>, Box<Ty>), Opt128, VecU32, Unit, Unknown }
 
 impl Ty {
     fn lean(&self) -> String {
@@ -21,7 +21,7 @@ impl Ty {
             Ty::U8 => "UInt8".into(), Ty::U32 => "UInt32".into(), Ty::U64 => "UInt64".into(), Ty::I32 => "Int32".into(),
             Ty::I64 => "Int64".into(), Ty::Bool => "Bool".into(), Ty::W(n) => format!("U{}", n), Ty::RMode => "RoundingMode".into(), Ty::Class => "ClassTypes".into(),
             Ty::F64U => "F64U".into(), Ty::F32U => "F32U".into(), Ty::DecDigits => "DecDigits".into(), Ty::N => "Nat".into(), Ty::Ord => "Ordering".into(), Ty::OptOrd => "(Option Ordering)".into(),
-            Ty::Hasher => "(List UInt8)".into(), Ty::Arr(t, _) => format!("(Array {})", t.lean()), Ty::Generic(g) => format!("{}'", g),
+            Ty::Hasher => "(List UInt8)".into(), Ty::VecU32 => "(List UInt32)".into(), Ty::Arr(t, _) => format!("(Array {})", t.lean()), Ty::Generic(g) => format!("{}'", g),
             Ty::Tuple(v) => format!("({})", v.iter().map(|t| t.lean()).collect::<Vec<_>>().join(" × ")),
             Ty::Func(a, r) => format!("({} → Except String {})", a.iter().map(|t| t.lean()).collect::<Vec<_>>().join(" → "), r.lean()),
             Ty::Opt128 => "(Option U128)".into(),
@@ -103,6 +103,10 @@ fn ty_of_type(t: &Type) -> (Ty, bool) {
                 "Option" => {
                     let inner = match &p.path.segments.last().unwrap().arguments { PathArguments::AngleBracketed(a) => a.args.first().and_then(|g| if let GenericArgument::Type(t) = g { Some(ty_of_type(t).0) } else { None }), _ => None };
                     if inner == Some(Ty::Ord) { Ty::OptOrd } else if inner == Some(Ty::W(128)) { Ty::Opt128 } else { Ty::Unknown }
+                }
+                "Vec" => {
+                    let inner = match &p.path.segments.last().unwrap().arguments { PathArguments::AngleBracketed(a) => a.args.first().and_then(|g| if let GenericArgument::Type(t) = g { Some(ty_of_type(t).0) } else { None }), _ => None };
+                    if inner == Some(Ty::U32) { Ty::VecU32 } else { Ty::Unknown }
                 } "BID_UINT192" => Ty::W(192), "BID_UINT256" => Ty::W(256),
                 "BID_UINT384" => Ty::W(384), "BID_UINT512" => Ty::W(512), "RoundingMode" => Ty::RMode, "ClassTypes" => Ty::Class,
                 "BID_UI64DOUBLE" | "f64" => Ty::F64U, "BID_UI32FLOAT" | "f32" => Ty::F32U, "DEC_DIGITS" => Ty::DecDigits,
@@ -959,6 +963,16 @@ impl<'a> FnCtx<'a> {
                 };
                 let rs = self.expr(&mc.receiver, env)?.s;
                 let st = self.assign_to(&mc.receiver, &format!("({} ++ {})", rs, bytes), env)?;
+                self.flush(ind, out);
+                out.lines.push(format!("{}{}", ind, st));
+                Ok(())
+            }
+            Expr::MethodCall(mc) if matches!(tail, Tail::No) && self.ext && mc.method == "push" && self.expr(&mc.receiver, env).map(|r| r.ty == Ty::VecU32).unwrap_or(false) => {
+                // `vec.push(x)` on a `Vec<BID_UINT32>` (a `List UInt32`): append
+                let a = self.expr(&mc.args[0], env)?;
+                let a_s = self.cast(&a, &Ty::U32)?;
+                let rs = self.expr(&mc.receiver, env)?.s;
+                let st = self.assign_to(&mc.receiver, &format!("({} ++ [{}])", rs, a_s), env)?;
                 self.flush(ind, out);
                 out.lines.push(format!("{}{}", ind, st));
                 Ok(())
